@@ -200,15 +200,22 @@ def rule_entry(R):
                 c = code.calls.get(bb)
                 if c is not None and c.dst["l"] == 0 and not c.dst["proj"]:
                     vals.append(code.call_term(bb))
-            if not vals:
-                # the value travels through temporaries (a guard that lives in an inlined helper): read it per path
-                fl_t = [fl]
-                if fl_t and fl_t[0] is not None:
-                    for lf in paths.explore(code, fl_t[0], lambda t_: False, lambda b_, x_: False, max_paths=500):
-                        if lf["kind"] == "return":
-                            pv = paths.value_on_path(code, [src] + lf["path"], 0)
-                            if pv is not None:
-                                vals.append(pv)
+            if not vals or not all(dead_value_ok(v, want) for v in vals):
+                # the value travels through temporaries (a guard that lives in an inlined helper, whose result the caller
+                # hands on with `?`): read it per path
+                pvals = []
+                complete = True
+                for lf in paths.explore(code, fl, lambda t_: False, lambda b_, x_: False, max_paths=500):
+                    if lf["kind"] == "limit":
+                        complete = False
+                    if lf["kind"] == "return":
+                        pv = paths.value_on_path(code, [src] + lf["path"], 0)
+                        if pv is None:
+                            complete = False
+                        else:
+                            pvals.append(pv)
+                if complete and pvals:
+                    vals = pvals
             okv = bool(vals) and all(dead_value_ok(v, want) for v in vals)
             if n in roles.public_ops(f) or n in ("can_publish", "drive_packet", "read_packet", "perform_outbound_step", "flush_current"):
                 R.ob("dead-value/%s@%d" % (n, nsw_index(code, src)), okv,
@@ -238,16 +245,47 @@ def dead_value_ok(v, want):
         return v[0] == "agg" and v[3] == "Ok"
     # Err(Error::Disconnected) possibly through .into()
     if v[0] == "agg" and v[3] == "Err" and v[5]:
-        inner = v[5][0]
-        if is_call(inner, "core::convert::Into::into", "core::convert::From::from") and inner[3]:
-            inner = inner[3][0]
+        inner = peel(v[5][0])
+        for _ in range(3):   # conversions on the way out (`.into()`, the `From` applied by `?`)
+            if is_call(inner, "core::convert::Into::into", "core::convert::From::from") and inner[3]:
+                inner = peel(inner[3][0])
         return inner[0] == "agg" and inner[2] == "Error" and inner[3] == "Disconnected"
     return False
 
 
+def _last_generic(ty):
+    """last top-level generic argument of `Name<A, B>`"""
+    if not ty or "<" not in ty or not ty.endswith(">"):
+        return None
+    inner = ty[ty.index("<") + 1:-1]
+    depth, start, parts = 0, 0, []
+    for i, ch in enumerate(inner):
+        if ch in "<(":
+            depth += 1
+        elif ch in ">)":
+            depth -= 1
+        elif ch == "," and depth == 0:
+            parts.append(inner[start:i].strip())
+            start = i + 1
+    parts.append(inner[start:].strip())
+    return parts[-1]
+
+
 def result_root_pred(code, call):
     def is_root(x):
-        return roles.is_result_of(x, call.bb)
+        if roles.is_result_of(x, call.bb):
+            return True
+        # `call()?` inside an inlined helper whose error type is the caller's: `from_residual` converts with the
+        # reflexive `From` (identity), so the error tested afterwards is still that call's error
+        y = peel(x)
+        if is_call(y, "core::ops::FromResidual::from_residual") and y[3] and isinstance(y[3][0], tuple) and y[3][0][0] == "residual" \
+                and roles.is_result_of(y[3][0][1], call.bb):
+            c2 = code.calls.get(y[1])
+            if c2 is not None and len(c2.gargs or []) == 2 and c2.gargs[0].startswith("core::result::Result<") \
+                    and c2.gargs[1].startswith("core::result::Result<"):
+                e1, e2 = _last_generic(c2.gargs[0]), _last_generic(c2.gargs[1])
+                return e1 is not None and e1 == e2
+        return False
     return is_root
 
 
